@@ -363,6 +363,93 @@ theorem scanGo_compile (env : Env) (rs : List SrcRule) (fb : Nat) (P : Prog)
     rw [scan_lower (evAtom env) .always (by rfl) fb R false, firstMatch_toRules env fb rs R hR]
     rfl
 
+/-! ## the builder accepts every rule list the parser can produce -/
+
+def Func.nonEmpty : Func → Bool
+  | .qname _ ps => !ps.isEmpty
+  | .qtype _ ps => !ps.isEmpty
+  | .ip _ ps => !ps.isEmpty
+  | .upstream _ vs => !vs.isEmpty
+  | .internal => false
+
+theorem mem_groupByKey {κ α : Type} [BEq κ] [LawfulBEq κ] (ps : List (κ × α)) (p : κ × α) (hp : p ∈ ps) :
+    ∃ g ∈ groupByKey ps, g.1 = p.1 ∧ p.2 ∈ g.2 := by
+  refine ⟨(p.1, (ps.filter fun q => q.1 == p.1).map Prod.snd), ?_, rfl, ?_⟩
+  · exact List.mem_map.mpr ⟨p.1, mem_keyOrder ps [] p hp, rfl⟩
+  · exact List.mem_map.mpr ⟨p, List.mem_filter.mpr ⟨hp, by simp⟩, rfl⟩
+
+theorem alts_ne_nil (f : Func) (h : f.nonEmpty = true) : f.alts ≠ [] := by
+  cases f with
+  | qname neg ps =>
+    cases ps with
+    | nil => simp [Func.nonEmpty] at h
+    | cons p ps =>
+      obtain ⟨g, hg, _, _⟩ := mem_groupByKey (p :: ps) p (List.mem_cons_self)
+      intro hnil
+      have : Atom.dom g.1 g.2 ∈ (Func.qname neg (p :: ps)).alts := List.mem_map.mpr ⟨g, hg, rfl⟩
+      rw [hnil] at this; cases this
+  | qtype neg ps =>
+    cases ps with
+    | nil => simp [Func.nonEmpty] at h
+    | cons p ps =>
+      obtain ⟨g, hg, _, hv⟩ := mem_groupByKey (p :: ps) p (List.mem_cons_self)
+      intro hnil
+      have : Atom.qtype p.2 ∈ (Func.qtype neg (p :: ps)).alts :=
+        List.mem_flatMap.mpr ⟨g, hg, List.mem_map.mpr ⟨p.2, hv, rfl⟩⟩
+      rw [hnil] at this; cases this
+  | ip neg ps =>
+    cases ps with
+    | nil => simp [Func.nonEmpty] at h
+    | cons p ps =>
+      obtain ⟨g, hg, _, _⟩ := mem_groupByKey (p :: ps) p (List.mem_cons_self)
+      intro hnil
+      have : Atom.ipset g.2 ∈ (Func.ip neg (p :: ps)).alts := List.mem_map.mpr ⟨g, hg, rfl⟩
+      rw [hnil] at this; cases this
+  | upstream neg vs =>
+    cases vs with
+    | nil => simp [Func.nonEmpty] at h
+    | cons v vs => simp [Func.alts]
+  | internal => simp [Func.nonEmpty] at h
+
+theorem toCond_isSome (f : Func) (h : f.nonEmpty = true) : (toCond f).isSome = true := by
+  unfold toCond
+  have := alts_ne_nil f h
+  split
+  · rename_i he; exact absurd he this
+  · rfl
+
+theorem toConds_isSome : ∀ fs : List Func, (∀ f ∈ fs, f.nonEmpty = true) →
+    ∃ cs, toConds fs = some cs ∧ cs.length = fs.length := by
+  intro fs
+  induction fs with
+  | nil => intro _; exact ⟨[], rfl, rfl⟩
+  | cons f fs ih =>
+    intro h
+    obtain ⟨cs, hcs, hl⟩ := ih (fun g hg => h g (List.mem_cons_of_mem _ hg))
+    have := toCond_isSome f (h f (List.mem_cons_self))
+    cases hc : toCond f with
+    | none => simp [hc] at this
+    | some c => exact ⟨c :: cs, by simp [toConds, hc, hcs], by simp [hl]⟩
+
+theorem toRules_isSome : ∀ rs : List SrcRule,
+    (∀ r ∈ rs, r.funcs ≠ [] ∧ ∀ f ∈ r.funcs, f.nonEmpty = true) → (toRules rs).isSome = true := by
+  intro rs
+  induction rs with
+  | nil => intro _; rfl
+  | cons r rs ih =>
+    intro h
+    have hr := h r (List.mem_cons_self)
+    obtain ⟨cs, hcs, hl⟩ := toConds_isSome r.funcs hr.2
+    have ih' := ih (fun x hx => h x (List.mem_cons_of_mem _ hx))
+    cases hx : toRules rs with
+    | none => simp [hx] at ih'
+    | some xs =>
+      cases cs with
+      | nil =>
+        have : r.funcs = [] := by simpa using hl.symm
+        exact absurd this hr.1
+      | cons c cs => simp [toRules, toRule, hcs, hx]
+
 /-! ## first-match characterisation -/
 
 theorem firstMatchSrc_char (env : Env) (fb : Nat) : ∀ rs : List SrcRule,
@@ -460,42 +547,99 @@ theorem lookup_store_other (c : Cache) (k k' : CacheKey) (v : List Rec) (h : k' 
 
 /-! ## dialSend -/
 
-theorem dialSend_deep (cfg : Cfg) (ans : Upstreams) (d : Nat) (u : UpRef) (h : d ≥ maxDnsLookupDepth) :
-    dialSend cfg ans d u = ([], .error .tooDeep) := by
+theorem dialSend_deep (cfg : Cfg) (q? : Option Question) (ans : Upstreams) (d : Nat) (u : UpRef)
+    (h : d ≥ maxDnsLookupDepth) : dialSend cfg q? ans d u = ([], .error .tooDeep) := by
   rw [dialSend]; simp [h]
 
-theorem dialSend_step (cfg : Cfg) (ans : Upstreams) (d : Nat) (u : UpRef) (h : d < maxDnsLookupDepth) :
-    dialSend cfg ans d u =
+theorem dialSend_step (cfg : Cfg) (q? : Option Question) (ans : Upstreams) (d : Nat) (u : UpRef)
+    (h : d < maxDnsLookupDepth) :
+    dialSend cfg q? ans d u =
       match ans d u with
       | none => ([u], .error .forwardFail)
       | some r =>
+        if !answersQuestion q? r then ([u], .error .questionMismatch)
+        else
         match responseSelect cfg r u with
         | .err e => ([u], .error e)
         | .accept => ([u], .ok r)
         | .reject => ([u], .ok { r with recs := [] })
-        | .next k => (u :: (dialSend cfg ans (d + 1) (.up k)).1, (dialSend cfg ans (d + 1) (.up k)).2) := by
+        | .next k => (u :: (dialSend cfg q? ans (d + 1) (.up k)).1, (dialSend cfg q? ans (d + 1) (.up k)).2) := by
   rw [dialSend, dif_neg (Nat.not_le.mpr h)]
   rfl
 
-theorem dialSend_trace_le (cfg : Cfg) (ans : Upstreams) :
-    ∀ (n d : Nat) (u : UpRef), maxDnsLookupDepth - d = n → (dialSend cfg ans d u).1.length ≤ n := by
+theorem dialSend_trace_le (cfg : Cfg) (q? : Option Question) (ans : Upstreams) :
+    ∀ (n d : Nat) (u : UpRef), maxDnsLookupDepth - d = n → (dialSend cfg q? ans d u).1.length ≤ n := by
   intro n
   induction n with
   | zero =>
     intro d u h
-    rw [dialSend_deep cfg ans d u (by omega)]; simp
+    rw [dialSend_deep cfg q? ans d u (by omega)]; simp
   | succ n ih =>
     intro d u h
-    rw [dialSend_step cfg ans d u (by omega)]
+    rw [dialSend_step cfg q? ans d u (by omega)]
     cases ans d u with
     | none => simp
     | some r =>
-      cases hs : responseSelect cfg r u with
-      | err e => simp [hs]
-      | accept => simp [hs]
-      | reject => simp [hs]
-      | next k =>
-        have := ih (d + 1) (.up k) (by omega)
-        simp only [hs, List.length_cons]; omega
+      cases ha : answersQuestion q? r with
+      | false => simp [ha]
+      | true =>
+        cases hs : responseSelect cfg r u with
+        | err e => simp [hs, ha]
+        | accept => simp [hs, ha]
+        | reject => simp [hs, ha]
+        | next k =>
+          have := ih (d + 1) (.up k) (by omega)
+          simp only [hs, ha, Bool.not_true, Bool.false_eq_true, if_false, List.length_cons]; omega
+
+/-! ## concrete data for the non-vacuity examples of Props.lean -/
+namespace Ex
+
+/-- request rules
+```
+qname(suffix: example.com, keyword: goo) && !qtype(a, aaaa) -> u1
+sub(tag: t1) -> u0                     # internal selector, not a DNS rule
+qname(full: x.org) -> reject
+qtype(aaaa) -> u0
+fallback: asis
+``` -/
+def reqRules : List SrcRule :=
+  [⟨[.qname false [(.suffix, "example.com"), (.keyword, "goo")], .qtype true [("", 1), ("", 28)]], 1⟩,
+   ⟨[.internal], 0⟩,
+   ⟨[.qname false [(.full, "x.org")]], 0xFC⟩,
+   ⟨[.qtype false [("", 28)]], 0⟩]
+
+def envExample : Env := ⟨"A.Example.COM.".toList, 5, [], 0, []⟩
+def envXorg : Env := ⟨"x.org.".toList, 28, [], 0, []⟩
+def envOther : Env := ⟨"abcexample.com".toList, 1, [], 0, []⟩
+
+/-- response rules
+```
+upstream(u0) && ip(10.0.0.0/8, 2001:db8::/32) -> u1
+!qname(suffix: cn) && qtype(a) -> reject
+fallback: accept
+``` -/
+def respRules : List SrcRule :=
+  [⟨[.upstream false [0], .ip false [("", ⟨true, mapped4 0x0a000000, 8⟩), ("", ⟨false, 0x20010db8 * 2 ^ 96, 32⟩)]], 1⟩,
+   ⟨[.qname true [(.suffix, "cn")], .qtype false [("", 1)]], 0xFD⟩]
+
+def qCom : Question := ⟨"www.example.com.".toList, 1, []⟩
+def respPolluted : Resp := ⟨true, some qCom, [.other, .a 0x0a010203], true⟩
+
+def cfg2 : Cfg := ⟨2, (compileRequest reqRules 0xFD).getD default, (compile respRules 0xFC).getD default⟩
+
+/-- a request program that rejects everything, and a cache that knows the answer -/
+def cfgRejectAll : Cfg := ⟨0, (compileRequest [] 0xFC).getD default, (compile [] 0xFC).getD default⟩
+def qCached : Question := ⟨"Ads.Example.COM.".toList, 1, []⟩
+def cacheWithAnswer : Cache :=
+  [(⟨"ads.example.com.".toList, 1, .asis 1⟩, [.a 0x01020304]), (⟨"ads.example.com.".toList, 1, .up 0⟩, [.a 0x05060708]),
+   (⟨"other.test.".toList, 1, .asis 1⟩, [.a 0x09090909])]
+
+/-- response rules `upstream(u0) -> u1; upstream(u1) -> u0; fallback: u0`: every answer is sent on -/
+def bounceRules : List SrcRule := [⟨[.upstream false [0]], 1⟩, ⟨[.upstream false [1]], 0⟩]
+def qLoop : Question := ⟨"a.loop.".toList, 1, []⟩
+def respLoop : Resp := ⟨true, some qLoop, [.a 0x01020304], true⟩
+def bounceCfg : Cfg := ⟨2, (compileRequest [] 0).getD default, (compile bounceRules 0).getD default⟩
+
+end Ex
 
 end DaeVerif.C07
